@@ -56,6 +56,10 @@ pub fn gen_c01(t: &mut Tape, cfg: &GenCfg) -> SolveCase {
 }
 
 pub fn gen_c02(t: &mut Tape, cfg: &GenCfg) -> SolveCase {
+    gen_c02_with(t, cfg, true)
+}
+
+fn gen_c02_with(t: &mut Tape, cfg: &GenCfg, inf_rows: bool) -> SolveCase {
     let mut ps = match t.weighted(&[4, 4, 2]) {
         0 => gen_primal_infeasible(t, cfg),
         1 => gen_dual_infeasible(t, cfg),
@@ -63,6 +67,11 @@ pub fn gen_c02(t: &mut Tape, cfg: &GenCfg) -> SolveCase {
     };
     if t.chance(0.3) {
         badly_scale(t, &mut ps, 3.0);
+    }
+    // some nonnegative rows become infinite bounds (dropped by presolve, restored around the certificate by
+    // reverse_presolve); this can change what the problem is - the oracle judges whatever verdict comes back
+    if inf_rows && t.chance(0.2) {
+        plant_inf_rows(t, &mut ps, 0.3);
     }
     let mut st = gen_settings(t);
     if t.chance(0.3) {
@@ -210,7 +219,7 @@ pub struct ResolveCase {
 }
 
 pub fn gen_c02_resolve(t: &mut Tape, cfg: &GenCfg) -> ResolveCase {
-    let base = gen_c02(t, cfg);
+    let base = gen_c02_with(t, cfg, false);
     resolve_from(t, base)
 }
 
